@@ -1,4 +1,8 @@
 ---- MODULE MC ----
 EXTENDS ClockReplacer
 View == cvars
+(* refinement: the policy as coded implements the replacer BufferPool.tla assumes *)
+C == INSTANCE ReplacerContract WITH cand <- Elems(list),
+       last <- IF reply.op = "Victim" /\ reply.f \in Frame THEN reply.f ELSE "none"
+Refines == C!CSpec
 ====
